@@ -68,6 +68,7 @@ fn main() {
     compile_tests(&man_dir, out_dir);
 
     println!("cargo:rerun-if-changed=build.rs");
+    println!("cargo:rustc-check-cfg=cfg(yarel_verif)");
 }
 
 fn compile_core_classes(man_dir: &OsString, out_dir: &Path) {
